@@ -10,11 +10,13 @@ PROBLEMS = [("restart_error", "restart-failed"), ("incomplete", "best-incomplete
             ("broadcast", "broadcast-before-durable"), ("own_diff", "own-block-differs-after-restart")]
 
 
-def run_stream(ctx, binp, seed, blocks, maxcuts, double):
-    out = ctx.tmp("cuts-%d" % seed)
+def run_stream(ctx, binp, seed, blocks, maxcuts, double, wedge=False):
+    out = ctx.tmp("cuts-%d%s" % (seed, "w" if wedge else ""))
     argv = [binp, "-out", out, "-seed", str(seed), "-blocks", str(blocks), "-maxcuts", str(maxcuts)]
     if double:
         argv.append("-double")
+    if wedge:
+        argv.append("-wedge")
     rc, o = ctx.run(argv, timeout=1800)
     if rc == 3:
         raise Infra("crashcuts harness error: " + o[-1500:])
@@ -26,7 +28,7 @@ def run_stream(ctx, binp, seed, blocks, maxcuts, double):
         raise Infra("crashcuts failed rc=%s: %s" % (rc, o[-2000:]))
     d = json.load(open(os.path.join(out, "cuts.json")))
     events = read_ndjson(os.path.join(out, "trace.ndjson"))
-    how = dict(seed=seed, blocks=blocks, maxcuts=maxcuts, double=double)
+    how = dict(seed=seed, blocks=blocks, maxcuts=maxcuts, double=double, wedge=wedge)
     if d.get("engine_contract"):
         # thor's LevelEngine.Bulk no longer is one atomic batch: the writes the import relies on can be split by a crash
         rp = ctx.save_replay("seed%d-engine-contract.json" % seed, {"how": how, "engine_contract": d["engine_contract"]})
@@ -39,6 +41,11 @@ def run_stream(ctx, binp, seed, blocks, maxcuts, double):
                 phases = c.get("crash_phases") or [c["phase"]]
                 phase = "q" if "q" in phases else phases[0]
                 signature = "%s:%s" % (sig, phase)
+                if key == "import_errors":
+                    # what failed is part of the signature: F2's missing quality can make a later CommitBlock fail in
+                    # findCheckpointByQuality; any other import error after a crash is a different defect
+                    txt = " ".join(c[key])
+                    signature += ":find-by-quality" if "by quality" in txt else ":other"
                 rp = ctx.save_replay("seed%d-cut%d%s-%s.json" % (seed, c["k"], "-" + c["variant"] if c.get("variant") else "", sig), {"how": how, "cut": c})
                 ctx.report(signature, "seed %d cut %d (crash before a '%s' write of block %d): %s: %s" %
                            (seed, c["k"], c["phase"], c["inflight"], sig, c[key]), rp)
@@ -140,7 +147,7 @@ def run(ctx):
     r = ctx.tlc("store", "MC_ImportCrash", cfg="MC_ImportCrash_F2.cfg", timeout=900, files=bft_ops,
                 label="regression: the spec reproduces F2", count=False)
     if r.invariant != "ResumeConvergesAlsoF2":
-        raise Infra("the specification no longer reproduces finding F2 (expected ResumeConvergesAlsoF2 to be violated): %s"
+        raise Infra("the specification without the start-up repair no longer reproduces finding F2 (expected ResumeConvergesAlsoF2 to be violated): %s"
                     % (r.invariant or r.error or "no violation"))
     ctx.cov["f2_reproduced_in_spec"] = True
     # 2. real code: cut enumeration
@@ -160,6 +167,13 @@ def run(ctx):
             seen_phases[c["phase"]] = seen_phases.get(c["phase"], 0) + 1
         ctx.sample({"seed": seed, "writes": d["writes"], "blocks": d["blocks"], "pos": d["pos"], "refFin": d["refFin"],
                     "cuts": [dict(k=c["k"], phase=c["phase"], inflight=c["inflight"]) for c in d["cuts"][:4]]}, limit=3)
+    # the shape in which a missing quality does most harm (F2, repaired by 59e8b72): long justified-but-uncommitted prefix,
+    # commits at the end, a crash at every quality write
+    for s in range(1 if q else 6):
+        d = run_stream(ctx, binp, ctx.seed * 1000 + 500 + s, 26 + 3 * s, 0, double=False, wedge=True)
+        if d is not None:
+            cuts += len(d["cuts"])
+            ctx.cov["wedge_streams_q_cuts"] = ctx.cov.get("wedge_streams_q_cuts", 0) + len(d["cuts"])
     ctx.cov["evaluations"] = cuts
     ctx.cov["distinct_nontrivial"] = cuts - seen_phases.get("none", 0)
     ctx.cov["cuts_by_phase"] = seen_phases
